@@ -160,3 +160,66 @@ pub proof fn lemma_index_spread_positive(k: real, s: real, q: real)
         requires 2real * (u * (2real * k - 1real)) - 3real * (u * u) == u * (k + 1real);
     assert(kk * (u * (k + 1real)) > 0real) by(nonlinear_arith) requires kk == k * k, u == k - 1real, k >= 2real;
 }
+// Two-pole section with input:  f2 = u + b1 f1 - a^2 f0,  b1 = 2 a c,  |c| <= 1,  0 < a < 1.  With the Lyapunov form
+// V(d1, d0) = d1^2 - b1 d1 d0 + a^2 d0^2 :  V(f2, f1) <= (a sqrt(V(f1, f0)) + |u|)^2.  Stated without square roots: if V(f1, f0) <= m^2,
+// |u| <= ub and (1 - a) m == ub then V(f2, f1) <= m^2  (bounded input, bounded state, for ever).
+pub proof fn lemma_two_pole_forced(a: real, c: real, f0: real, f1: real, u: real, m: real, ub: real)
+    requires 0real < a < 1real, -1real <= c <= 1real, m >= 0real, ub >= 0real, -ub <= u <= ub, (1real - a) * m == ub,
+        f1 * f1 - (2real * a * c) * (f1 * f0) + (a * a) * (f0 * f0) <= m * m
+    ensures ({ let b1 = 2real * a * c; let f2 = u + (b1 * f1 + (-a * a) * f0);
+               f2 * f2 - b1 * (f2 * f1) + (a * a) * (f1 * f1) <= m * m })
+{
+    let b1 = 2real * a * c; let aa = a * a;
+    let h = b1 * f1 + (-a * a) * f0;
+    let vh = h * h - b1 * (h * f1) + aa * (f1 * f1);
+    let v0 = f1 * f1 - b1 * (f1 * f0) + aa * (f0 * f0);
+    crate::alg::lemma_two_pole_lyapunov(a, c, f0, f1);
+    assert(vh == aa * v0);
+    let f2 = u + h;
+    let v2 = f2 * f2 - b1 * (f2 * f1) + aa * (f1 * f1);
+    let d = 2real * h - b1 * f1;
+    assert(f2 * f2 == h * h + 2real * (h * u) + u * u) by(nonlinear_arith) requires f2 == u + h;
+    assert(f2 * f1 == h * f1 + u * f1) by(nonlinear_arith) requires f2 == u + h;
+    assert(b1 * (h * f1 + u * f1) == b1 * (h * f1) + b1 * (u * f1)) by(nonlinear_arith);
+    assert(u * d == 2real * (h * u) - b1 * (u * f1)) by(nonlinear_arith) requires d == 2real * h - b1 * f1;
+    assert(v2 == vh + u * d + u * u);
+    // d^2 = 4 vh - (4 a^2 - b1^2) f1^2 <= 4 vh
+    let hf = h * f1; let ff = f1 * f1; let hh = h * h;
+    assert(d * d == 4real * hh - 4real * (b1 * hf) + (b1 * b1) * ff) by(nonlinear_arith) requires d == 2real * h - b1 * f1, hf == h * f1, ff == f1 * f1, hh == h * h;
+    assert(b1 * b1 == 4real * aa * (c * c)) by(nonlinear_arith) requires b1 == 2real * a * c, aa == a * a;
+    assert(c * c <= 1real) by(nonlinear_arith) requires -1real <= c <= 1real;
+    assert(aa >= 0real) by(nonlinear_arith) requires aa == a * a;
+    assert(4real * aa * (c * c) <= 4real * aa) by(nonlinear_arith) requires aa >= 0real, c * c <= 1real;
+    assert(ff >= 0real) by(nonlinear_arith) requires ff == f1 * f1;
+    assert((4real * aa - b1 * b1) * ff >= 0real) by(nonlinear_arith) requires 4real * aa - b1 * b1 >= 0real, ff >= 0real;
+    assert((4real * aa - b1 * b1) * ff == 4real * (aa * ff) - (b1 * b1) * ff) by(nonlinear_arith);
+    assert(d * d <= 4real * vh);
+    // vh = a^2 v0 <= a^2 m^2
+    let mm = m * m;
+    assert(aa * v0 <= aa * mm) by(nonlinear_arith) requires aa >= 0real, v0 <= mm;
+    let k = 2real * a * m;
+    assert(k * k == 4real * (aa * mm)) by(nonlinear_arith) requires k == 2real * a * m, aa == a * a, mm == m * m;
+    assert(k >= 0real) by(nonlinear_arith) requires k == 2real * a * m, a > 0real, m >= 0real;
+    assert(d * d <= k * k);
+    assert(-k <= d <= k) by(nonlinear_arith) requires d * d <= k * k, k >= 0real;
+    assert(u * d <= ub * k) by(nonlinear_arith) requires -ub <= u <= ub, -k <= d <= k, ub >= 0real, k >= 0real;
+    assert(u * u <= ub * ub) by(nonlinear_arith) requires -ub <= u <= ub;
+    // (a m + ub)^2 = a^2 m^2 + ub k + ub^2  and  a m + ub == m
+    let am = a * m;
+    assert(am + ub == m) by(nonlinear_arith) requires am == a * m, (1real - a) * m == ub;
+    assert((am + ub) * (am + ub) == am * am + 2real * (am * ub) + ub * ub) by(nonlinear_arith);
+    assert(am * am == aa * mm) by(nonlinear_arith) requires am == a * m, aa == a * a, mm == m * m;
+    assert(2real * (am * ub) == ub * k) by(nonlinear_arith) requires am == a * m, k == 2real * a * m;
+    assert(m * m == aa * mm + ub * k + ub * ub);
+    assert(v2 <= mm);
+}
+// the Lyapunov form dominates the newest component:  (1 - c^2) d1^2 <= V(d1, d0)
+pub proof fn lemma_two_pole_form_dominates(a: real, c: real, d1: real, d0: real)
+    ensures (1real - c * c) * (d1 * d1) <= d1 * d1 - (2real * a * c) * (d1 * d0) + (a * a) * (d0 * d0)
+{
+    let w = a * d0;
+    assert((2real * a * c) * (d1 * d0) == 2real * c * (d1 * w)) by(nonlinear_arith) requires w == a * d0;
+    assert((a * a) * (d0 * d0) == w * w) by(nonlinear_arith) requires w == a * d0;
+    assert(d1 * d1 - 2real * c * (d1 * w) + w * w == (w - c * d1) * (w - c * d1) + (1real - c * c) * (d1 * d1)) by(nonlinear_arith);
+    assert((w - c * d1) * (w - c * d1) >= 0real) by(nonlinear_arith);
+}
